@@ -64,6 +64,9 @@ impl Walker {
 pub trait ZooVal: Sized + 'static {
     fn gen(rng: &mut Rng, sc: u8, hint: usize) -> Self;
     fn walk(&self, w: &mut Walker);
+    /// whether two equal values must also re-serialize to identical bytes (false for containers whose iteration
+    /// order is not part of their value: hash sets, binary heaps)
+    const BYTES_ARE_CANONICAL: bool = true;
 }
 
 /// collection length for a size class
@@ -714,6 +717,155 @@ impl ZooVal for ArrLast {
     }
 }
 
+/// Less common supported types, so that their readers are exercised at all (paths, Cow, sets, deques, heaps,
+/// shared slices, ranges, cells, atomics, timestamps); ends in a deque of strings (element-wise path).
+#[derive(SavefileNoIntrospect)]
+pub struct Misc {
+    pub path: std::path::PathBuf,
+    pub cow: std::borrow::Cow<'static, str>,
+    pub bset: std::collections::BTreeSet<String>,
+    pub hset: std::collections::HashSet<u32, std::hash::BuildHasherDefault<std::collections::hash_map::DefaultHasher>>,
+    pub iset: indexmap::IndexSet<u16>,
+    pub dq: std::collections::VecDeque<u32>,
+    pub range: std::ops::Range<u32>,
+    pub one: (u8,),
+    pub astr: arrayvec::ArrayString<16>,
+    pub rc: std::rc::Rc<u8>,
+    pub refcell: std::cell::RefCell<u16>,
+    pub cell: std::cell::Cell<u8>,
+    pub atomic: std::sync::atomic::AtomicU32,
+    pub when: chrono::DateTime<chrono::Utc>,
+    pub last: std::collections::VecDeque<String>,
+}
+impl Misc {
+    fn key(&self) -> String {
+        let mut h: Vec<u32> = self.hset.iter().copied().collect();
+        h.sort();
+        format!(
+            "{:?}|{:?}|{:?}|{:?}|{:?}|{:?}|{:?}|{:?}|{:?}|{:?}|{:?}|{:?}|{:?}|{:?}|{:?}",
+            self.path, self.cow, self.bset, h, self.iset, self.dq, self.range, self.one, self.astr.as_str(), self.rc, self.refcell.borrow(), self.cell.get(),
+            self.atomic.load(std::sync::atomic::Ordering::Relaxed), self.when.timestamp_nanos_opt(), self.last
+        )
+    }
+}
+impl PartialEq for Misc {
+    fn eq(&self, o: &Misc) -> bool {
+        self.key() == o.key()
+    }
+}
+impl std::fmt::Debug for Misc {
+    fn fmt(&self, f: &mut std::fmt::Formatter<'_>) -> std::fmt::Result {
+        write!(f, "Misc {{ {} }}", self.key())
+    }
+}
+impl ZooVal for Misc {
+    const BYTES_ARE_CANONICAL: bool = false;
+    fn gen(rng: &mut Rng, sc: u8, hint: usize) -> Self {
+        let sc2 = sc.min(2);
+        let n = len_for(rng, sc2, hint);
+        let mut astr = arrayvec::ArrayString::<16>::new();
+        for _ in 0..(n % 17) {
+            astr.push((b'a' + rng.below(26) as u8) as char);
+        }
+        Misc {
+            path: std::path::PathBuf::from(format!("/tmp/{}", gen_string(rng, sc2, 0))),
+            cow: std::borrow::Cow::Owned(gen_string(rng, sc2, 0)),
+            bset: (0..n.min(40)).map(|i| format!("{}{}", gen_string(rng, 1, 0), i)).collect(),
+            hset: (0..n.min(60)).map(|_| rng.next_u64() as u32).collect(),
+            iset: (0..n.min(60)).map(|_| rng.next_u64() as u16).collect(),
+            dq: (0..len_for(rng, sc, hint / 8)).map(|_| rng.next_u64() as u32).collect(),
+            range: (rng.next_u64() as u32 / 2)..(u32::MAX / 2 + rng.next_u64() as u32 / 2),
+            one: (rng.next_u64() as u8,),
+            astr,
+            rc: std::rc::Rc::new(rng.next_u64() as u8),
+            refcell: std::cell::RefCell::new(rng.next_u64() as u16),
+            cell: std::cell::Cell::new(rng.next_u64() as u8),
+            atomic: std::sync::atomic::AtomicU32::new(rng.next_u64() as u32),
+            when: chrono::DateTime::<chrono::Utc>::from_timestamp(rng.below(4_000_000_000) as i64, rng.below(1_000_000_000) as u32).unwrap_or_default(),
+            last: (0..len_for(rng, sc2, 0).min(70)).map(|_| gen_string(rng, 2, 0)).collect(),
+        }
+    }
+    fn walk(&self, w: &mut Walker) {
+        w.collection("PathBuf", self.path.as_os_str().len(), 1);
+        w.collection("Cow<str>", self.cow.len(), 1);
+        if w.collection("BTreeSet<String>", self.bset.len(), 8) {
+            w.elements_touched += self.bset.iter().map(|s| s.len() as u64).sum::<u64>();
+        }
+        if w.collection("HashSet<u32>", self.hset.len(), 4) {
+            w.elements_touched += self.hset.iter().count() as u64;
+        }
+        if w.collection("IndexSet<u16>", self.iset.len(), 2) {
+            w.elements_touched += self.iset.iter().count() as u64;
+        }
+        if w.collection("VecDeque<u32>", self.dq.len(), 4) {
+            w.elements_touched += self.dq.iter().fold(0u64, |a, b| a.wrapping_add(*b as u64)) & 1;
+        }
+        w.prim(8 + 1);
+        if self.astr.len() > 16 {
+            w.problem(format!("oversized:ArrayString<16> len {}", self.astr.len()));
+        } else if std::str::from_utf8(self.astr.as_bytes()).is_err() {
+            w.problem("invalid-utf8:ArrayString".to_string());
+        }
+        w.prim(1 + 2 + 1 + 4 + 12);
+        if w.collection("VecDeque<String>", self.last.len(), 8) {
+            for s in &self.last {
+                w.collection("String", s.len(), 1);
+            }
+        }
+    }
+}
+/// heap / shared slice / boxed slice (ends in the boxed slice of strings)
+#[derive(SavefileNoIntrospect)]
+pub struct Misc2 {
+    pub heap: std::collections::BinaryHeap<u16>,
+    pub shared: Arc<[u32]>,
+    pub packed_box: Box<[u16]>,
+    pub tail: Box<[String]>,
+}
+impl Misc2 {
+    fn key(&self) -> String {
+        format!("{:?}|{:?}|{:?}|{:?}", self.heap.clone().into_sorted_vec(), self.shared, self.packed_box, self.tail)
+    }
+}
+impl PartialEq for Misc2 {
+    fn eq(&self, o: &Misc2) -> bool {
+        self.key() == o.key()
+    }
+}
+impl std::fmt::Debug for Misc2 {
+    fn fmt(&self, f: &mut std::fmt::Formatter<'_>) -> std::fmt::Result {
+        write!(f, "Misc2 {{ {} }}", self.key())
+    }
+}
+impl ZooVal for Misc2 {
+    const BYTES_ARE_CANONICAL: bool = false;
+    fn gen(rng: &mut Rng, sc: u8, hint: usize) -> Self {
+        let sc2 = sc.min(2);
+        Misc2 {
+            heap: (0..len_for(rng, sc2, 0)).map(|_| rng.next_u64() as u16).collect(),
+            shared: (0..len_for(rng, sc, hint / 8)).map(|_| rng.next_u64() as u32).collect::<Vec<_>>().into(),
+            packed_box: (0..len_for(rng, sc2, 0)).map(|_| rng.next_u64() as u16).collect::<Vec<_>>().into_boxed_slice(),
+            tail: (0..len_for(rng, sc2, 0).min(70)).map(|_| gen_string(rng, 2, 0)).collect::<Vec<_>>().into_boxed_slice(),
+        }
+    }
+    fn walk(&self, w: &mut Walker) {
+        if w.collection("BinaryHeap<u16>", self.heap.len(), 2) {
+            w.elements_touched += self.heap.iter().count() as u64;
+        }
+        if w.collection("Arc<[u32]>", self.shared.len(), 4) {
+            w.elements_touched += self.shared.iter().fold(0u64, |a, b| a.wrapping_add(*b as u64)) & 1;
+        }
+        if w.collection("Box<[u16]>", self.packed_box.len(), 2) {
+            w.elements_touched += self.packed_box.iter().fold(0u64, |a, b| a.wrapping_add(*b as u64)) & 1;
+        }
+        if w.collection("Box<[String]>", self.tail.len(), 8) {
+            for s in self.tail.iter() {
+                w.collection("String", s.len(), 1);
+            }
+        }
+    }
+}
+
 /// A value that ENDS in one long string (sizes cross the 4 KiB / 64 KiB thresholds a size-dependent read path
 /// would use); nothing follows the string, so a short read of it is not caught by a later field.
 #[derive(Savefile, Debug, PartialEq, Clone)]
@@ -892,7 +1044,7 @@ where
     fn same(&self, a: &Val, b: &Val) -> bool {
         let a: &T = a.downcast_ref::<T>().expect("type");
         let b: &T = b.downcast_ref::<T>().expect("type");
-        a == b && self.bare_t(a) == self.bare_t(b)
+        a == b && (!T::BYTES_ARE_CANONICAL || self.bare_t(a) == self.bare_t(b))
     }
     fn bare(&self, v: &Val) -> Vec<u8> {
         self.bare_t(v.downcast_ref::<T>().expect("type"))
@@ -1058,6 +1210,8 @@ pub fn subjects() -> Vec<&'static dyn Subject> {
         subj!(BitsLast, "BitsLast"),
         subj!(PackedLast, "PackedLast"),
         subj!(ArrLast, "ArrLast"),
+        subj!(Misc, "Misc"),
+        subj!(Misc2, "Misc2"),
         &PipeSubj as &dyn Subject,
     ]
 }
